@@ -31,7 +31,7 @@ cd /repo && git apply $SRC/patch.diff || { echo "cannot apply to /repo"; exit 4;
 cd /verif
 EVSAVE=$(mktemp -d /root/evsave.XXXX); cp -a evidence/. $EVSAVE/   # evidence must come from clean-tree runs only
 for c in $CHECKS; do
-  out=$(python3 tools/check.py $c 2>&1 | grep -E "^VIOLATION|^KNOWN|quick:" | head -3)
+  out=$(python3 tools/check.py $c 2>&1 | grep -E "^VIOLATION|quick:" | head -3)
   echo "  check $c: $(echo "$out" | tr '\n' ' ' | cut -c1-300)"
 done
 git -C /repo checkout -- . ; git -C /repo status --short | head -3
